@@ -323,10 +323,12 @@ prop("C03",
           "applied, reference key-filter rewrite from C13, destination db = source db or target.db) => expected sequence of (db, command, args); observed = "
           "the model target's command log in execution order with the db each command ran in (tool-own SELECT/MULTI/EXEC/checkpoint HSET and PING left out); "
           "sequences must be equal (order, exactly once, byte-identical args, right db) and complete within 5 s of the last source byte while the stream "
-          "stays open. Non-trivial: >=2 SELECTs, >=1 filtered command, >=2 separate flushes. Distinct = hash of (configuration, stream, fragmentation).",
+          "stays open; every command is applied within 2.5 s of its own delivery, also in 'trickle' batches (thresholds high, one command every 300-450 ms "
+          "for 3-4 s, no barriers) where only the ticker can flush. Resumed streams may start inside a source MULTI block; SELECT may occur inside MULTI "
+          "when resume is off. Non-trivial: >=2 SELECTs, >=1 filtered command, >=2 separate flushes. Distinct = hash of (configuration, stream, fragmentation).",
      technique="property-based testing (rapid): generated command streams x configurations x arrival timings against a reference model of the filtered stream (model-based oracle), batched instances",
      level_text="The real four-goroutine pipeline runs unmodified against a model target; the reference model is independent of the repository's tables. Parser/sender/ticker interleavings are sampled through generated arrival times, not enumerated.",
      level_note="Trusted: harness/mredis, ref.KeySpecs, the reference walker in incr_test.go. PING may or may not be forwarded (left out of the comparison). Bounded-response (5 s) stands in for 'within bounded time'.",
      assumptions=["a master only propagates commands that succeeded (streams are type-consistent)",
                   "a resumed stream starts in a database that passes the db filter (checkpoints are only written there)",
-                  "SELECT does not occur inside a source MULTI block"])
+                  "with resume on, SELECT does not occur inside a source MULTI block"])
